@@ -348,7 +348,7 @@ def size_limit_cases():
     return out
 
 
-def sparse10_mutants(rnd, n):
+def sparse10_mutants(rnd, n, full=False):
     out = []
     # numbers straddling the window edges: pad the count / first numbers with leading zeros
     for edge in (510, 511, 512, 513, 1022, 1023, 1024, 1025, 1536):
@@ -362,10 +362,11 @@ def sparse10_mutants(rnd, n):
             out.append(sparse10_entry(b"s", m, b"e" * 512, 4096) + END)
             m2 = pre + b"0" * z + b"7" * nd + b"x" + b"512\n"
             out.append(sparse10_entry(b"s", m2, b"e" * 512, 4096) + END)
-    # maps that really hold limit / limit + 1 entries (TAR_MAX_SPARSE_ENT)
-    for n in (LIMIT, LIMIT + 1):
-        ents = [(i * 2, 1) for i in range(n)]
-        out.append(sparse10_entry(b"big", sparse10_map(ents), b"e" * n, 2 * n) + END)
+    # maps that really hold limit + 1 (and, thorough tier: limit) entries (TAR_MAX_SPARSE_ENT); the extracted
+    # model needs minutes for the accepted one (unary nat indices, 600 kB stream as a list)
+    for k in ((LIMIT, LIMIT + 1) if full else (LIMIT + 1,)):
+        ents = [(i * 2, 1) for i in range(k)]
+        out.append(sparse10_entry(b"big", sparse10_map(ents), b"e" * k, 2 * k) + END)
     fm = [None, lambda v: b"0" * 500 + str(v).encode(), lambda v: b"0" * 509 + str(v).encode(), lambda v: b"0" * 30 + str(v).encode()]
     for _ in range(n):
         k = rnd.random()
@@ -448,7 +449,7 @@ def tar_cases(rnd, tier):
         cases.append(("pax", m))
     for m in size_limit_cases():
         cases.append(("limit", m))
-    for m in sparse10_mutants(rnd, 250 if q else 5000):
+    for m in sparse10_mutants(rnd, 250 if q else 5000, full=not q):
         cases.append(("sparse10", m))
     for m in oldsparse_mutants(rnd, 200 if q else 4000):
         cases.append(("oldsparse", m))
